@@ -161,9 +161,28 @@ pub trait PacketTrait: Serialize {
 
     /// Length in bytes used when calling `to_writer_with_header`.
     fn write_len_with_header(&self) -> usize {
-        let mut sum = self.packet_header().write_len();
-        sum += self.write_len();
-        sum
+        let body_len = self.write_len();
+        let original_header = self.packet_header();
+
+        // Must agree with `to_writer_with_header`: for a fixed or partial length the header
+        // that is written is a normalized fixed length header for the current body.
+        let header_len = match original_header.packet_length().maybe_len() {
+            Some(_) => u32::try_from(body_len)
+                .ok()
+                .and_then(|len| {
+                    PacketHeader::from_parts(
+                        original_header.version(),
+                        original_header.tag(),
+                        PacketLength::Fixed(len),
+                    )
+                    .ok()
+                })
+                .map(|header| header.write_len())
+                .unwrap_or_else(|| original_header.write_len()),
+            None => original_header.write_len(),
+        };
+
+        header_len + body_len
     }
 }
 
